@@ -112,12 +112,14 @@ pub fn render_text_maybe_broken(doc: &Doc, rng: &mut Rng) -> String {
 }
 
 pub fn project(rng: &mut Rng, cfg: &ProjCfg) -> Proj {
-    let n = rng.range(1, cfg.max_files);
+    // once in a while a project with many (small) files
+    let many = cfg.max_files >= 6 && rng.chance(1, 150);
+    let n = if many { *rng.pick(&[31usize, 32, 33, 64, 65, 70]) } else { rng.range(1, cfg.max_files) };
     // 1. headers
     let mut heads: Vec<(String, String, ItemKind)> = Vec::new();
     for _ in 0..n {
         for _attempt in 0..20 {
-            let pkg = rng.pick_str(PACKAGES).to_string();
+            let pkg = if many { format!("m{}.{}", rng.below(12), rng.pick_str(PACKAGES)) } else { rng.pick_str(PACKAGES).to_string() };
             let name = rng.pick_str(ITEM_NAMES).to_string();
             let kind = *rng.pick(&[ItemKind::Interface, ItemKind::Parcelable, ItemKind::Enum]);
             let key = format!("{pkg}.{name}");
@@ -249,7 +251,7 @@ pub fn project(rng: &mut Rng, cfg: &ProjCfg) -> Proj {
         pool.push("Nope".into());
         pool.push("nope.Nope".into());
         let customs: Vec<Vec<String>> = pool.iter().map(|s| split(s)).collect();
-        let gcfg = GenCfg { kind: Some(kind), max_members: cfg.max_members, max_type_depth: cfg.max_type_depth, max_args: 3, customs, ann_num: 1, ann_den: 8, allow_overflow_codes: true, deep_types: true, big: true, repeat_method_names: true, ..GenCfg::default() };
+        let gcfg = GenCfg { kind: Some(kind), max_members: if many { 2 } else { cfg.max_members }, max_type_depth: cfg.max_type_depth, max_args: 3, customs, ann_num: 1, ann_den: 8, allow_overflow_codes: true, deep_types: true, big: true, repeat_method_names: true, ..GenCfg::default() };
         let mut item = gen::item(rng, &gcfg);
         item.name = name.clone();
         // method names: bias toward repeats, codes toward repeats (C09)
